@@ -13,7 +13,7 @@ func TestC06(t *testing.T) {
 	mon.Main(t, mon.Check{
 		ID:    "C06",
 		Level: "exploration",
-		Rule: "real gbn code in virtual time; a fault prefix (random per-packet drop/dup/delay for 5..120 virtual s, or scripted tail loss: the first transmission of the last packet of a burst is dropped and the application then goes silent) is followed by a reliable link whose latency is below the resend timeout. Families: random (as C01), tail-loss, and resend-timeout >= peer ping interval. Oracles in virtual time: (stall) at the horizon (fault end + 2h) with both ends open and an accepted message undelivered, nothing was delivered during the last 20 resend timeouts; (closure) with keepalive off no endpoint ever closes by itself; with keepalive on, once one end has closed the other end's calls fail too (all application goroutines return before the horizon); (quiescence) after everything was delivered, 10 resend timeouts (>=30 s) of observation show no non-ping DATA packet on either link and no growth of the resend timeout. A merely slow run (still delivering at the horizon) is inconclusive, not a violation. Non-trivial = at least one packet fault and one delivered message; distinct = wire-trace hash.",
+		Rule:  "real gbn code in virtual time; a fault prefix (random per-packet drop/dup/delay for 5..120 virtual s, or scripted tail loss: the first transmission of the last packet of a burst is dropped and the application then goes silent) is followed by a reliable link whose latency is below the resend timeout. Families: random (as C01), tail-loss, and resend-timeout >= peer ping interval. Oracles in virtual time: (stall) at the horizon (fault end + 2h) with both ends open and an accepted message undelivered, nothing was delivered during the last 20 resend timeouts; (closure) with keepalive off no endpoint ever closes by itself; with keepalive on, once one end has closed the other end's calls fail too (all application goroutines return before the horizon); (quiescence) after everything was delivered, 10 resend timeouts (>=30 s) of observation show no non-ping DATA packet on either link and no growth of the resend timeout. A merely slow run (still delivering at the horizon) is inconclusive, not a violation. Non-trivial = at least one packet fault and one delivered message; distinct = wire-trace hash.",
 		Assumptions: []string{
 			"unbounded eventually is restated as bounded progress on the virtual clock",
 			"transport preserves per-direction order; faults start after a clean handshake",
@@ -65,7 +65,7 @@ func c06Scen(c *mon.Case) (*eng.Scen, string) {
 		conf := eng.GBNConf{N: n, Static: true,
 			Resend: []time.Duration{5 * time.Second, 6 * time.Second, 8 * time.Second, 12 * time.Second}[rng.Intn(4)],
 			PingC:  7 * time.Second, PongC: 3 * time.Second, PingS: 5 * time.Second, PongS: 3 * time.Second,
-			Lat:    []time.Duration{0, 10 * time.Millisecond, 200 * time.Millisecond}[rng.Intn(3)]}
+			Lat: []time.Duration{0, 10 * time.Millisecond, 200 * time.Millisecond}[rng.Intn(3)]}
 		if rng.Intn(2) == 0 {
 			conf.PingC, conf.PongC, conf.PingS, conf.PongS = 2*time.Second, time.Second, 2*time.Second, time.Second
 		}
